@@ -108,6 +108,8 @@ class Effects:
         self._long_lived(root_classes)
         self._param_taint: Dict[Tuple[str, str], str] = {}
         self.param_why: Dict[Tuple[str, str], str] = {}
+        self.param_origins: Dict[Tuple[str, str], list] = {}
+        self.param_whys: Dict[Tuple[str, str], List[str]] = {}      # every caller that makes the parameter per-request
         self._taint_fixpoint()
 
     # -- call tree -----------------------------------------------------------------------------
@@ -248,8 +250,14 @@ class Effects:
                         if new != cur:
                             self._param_taint[key] = new
                             changed = True
-                        if t == PR and key not in self.param_why:
-                            self.param_why[key] = f'{caller.module.rel}:{call.lineno} {caller.qualname.rsplit(".", 2)[-2]}.{caller.name} passes `{norm(expr)[:50]}`'
+                        if t == PR:
+                            why_ = f'{caller.module.rel}:{call.lineno} {caller.qualname.rsplit(".", 2)[-2]}.{caller.name} passes `{norm(expr)[:50]}`'
+                            if key not in self.param_why:
+                                self.param_why[key] = why_
+                            lst_ = self.param_whys.setdefault(key, [])
+                            if why_ not in lst_:
+                                lst_.append(why_)
+                                self.param_origins.setdefault(key, []).append((caller, expr, call.lineno))
             if not changed:
                 return
 
@@ -485,11 +493,26 @@ class Effects:
                 for a in list(call.args) + [kw.value for kw in call.keywords]:
                     av = a.value if isinstance(a, ast.Starred) else a
                     if self.taint(av, caller) == PR:
-                        why = ''
+                        whys = ['']
                         if isinstance(av, ast.Name):
-                            why = self.param_why.get((caller.qualname, av.id), '')
-                        out.append(Retention(caller, call.lineno, norm(call)[:90], f'cache key of memoised {callee.qualname}',
-                                             norm(av) + (f' (per-request because {why})' if why else '')))
+                            # the callers at the ROOT of the chain that hands the value down (a caller that merely passes its own
+                            # per-request parameter on is followed upwards)
+                            roots: List[str] = []
+
+                            def chase(fq: str, pn: str, depth: int = 0) -> None:
+                                for cf, ex, ln in self.param_origins.get((fq, pn), []):
+                                    if isinstance(ex, ast.Name) and self.param_origins.get((cf.qualname, ex.id)) and depth < 6:
+                                        chase(cf.qualname, ex.id, depth + 1)
+                                    else:
+                                        w_ = f'{cf.module.rel}:{ln} {cf.qualname.rsplit(".", 2)[-2]}.{cf.name} passes `{norm(ex)[:50]}`'
+                                        if w_ not in roots:
+                                            roots.append(w_)
+                            chase(caller.qualname, av.id)
+                            whys = roots or [self.param_why.get((caller.qualname, av.id), '')]
+                        # one record per caller that makes the value per-request: each is a way of its own into the cache
+                        for why in whys:
+                            out.append(Retention(caller, call.lineno, norm(call)[:90], f'cache key of memoised {callee.qualname}',
+                                                 norm(av) + (f' (per-request because {why})' if why else '')))
         # (a') a long-lived exception object raised during the call accumulates traceback / __cause__ / __context__
         for f in self.tree.values():
             for x in walk_own(f.node):
